@@ -54,6 +54,21 @@ META = {
         "note": "Domain = what the shipped CRD schema enforces (DESIGN section 3 C15); replicas <= 8; the decode step JSON -> Go types is assumed (objects are generated as Go values).",
         "technique": "property-based testing (rapid) + native go fuzzing via rapid.MakeFuzz; crash oracle",
     },
+    "C02": {
+        "text": "Bounded liveness as a generated search: from constructed cluster states and random prefixes, a fair deterministic closing schedule must "
+                "reach a fixed point (cycle detection distinguishes livelock from slowness) at which the pods, their revisions, the status and the "
+                "absence of further writes are checked against the reference model.",
+        "design_ref": "DESIGN.md section 3, C02",
+        "note": "'Eventually' is decided under one fair schedule family with a round bound; adversarial-but-fair schedules outside it are not explored. Non-member squatters and non-canonical pod names are outside the generated domain.",
+        "technique": "stateful property-based testing (rapid): random prefix + fair closing schedule with cycle detection; fixed-point oracle from a reference model",
+    },
+    "C12": {
+        "text": "Every status write of every reconcile over legitimately reached states is checked for bounds, generation monotonicity and the "
+                "rollout-completion rule; the closing schedule adds the exact-census check at the fixed point. Found and repaired a negative currentReplicas.",
+        "design_ref": "DESIGN.md section 3, C12",
+        "note": "Reachable = produced by the harness's legitimate transitions only (no constructed pods); same bounds as C03.",
+        "technique": "stateful property-based testing (rapid) with per-write invariant monitor + fixed-point census",
+    },
 }
 
 _pending = "check not built yet in this round of the build; planned per DESIGN.md section 3 (generated-input search applies)"
